@@ -336,11 +336,20 @@ def run(ck):
     summ_n = lib.Summaries(prog).lift_must(is_ntop, "inet_ntop")
     fam_edges = lib.relation_edges(its, lambda r_: (r_.get("f") or "").endswith("IP::family") or (r_.get("t") or "").strip() in ("family", "this->family"),
                                    lambda r_: re.sub(r"[\s()]", "", r_.get("t") or "") in ("AF_INET", "AF_INET6", "2", "10"), ("==",))
-    ck.require(fam_edges, "family tests not found in IP::toString")
-    for bid_, k_ in fam_edges:
-        arm_ = its.blocks[bid_].succs[k_]
+    arms_ = [(bid_, its.blocks[bid_].succs[k_], re.sub(r"\s+", "", (its.blocks[bid_].term or {}).get("cond") or "family")) for bid_, k_ in fam_edges]
+    # `switch (family) { case AF_INET: ... case AF_INET6: ... }`: the case labels are the family tests
+    for b_ in its.blocks.values():
+        t_ = b_.term or {}
+        if t_.get("k") == "switch" and ((t_.get("core") or {}).get("f") or "").endswith("IP::family") or \
+                (t_.get("k") == "switch" and re.sub(r"\s+|this->", "", (t_.get("cond") if isinstance(t_.get("cond"), str) else " ".join(t_.get("cond") or [])) or "") == "family"):
+            for s_ in b_.succs:
+                lab_ = (its.blocks[s_].label or {}) if s_ in its.blocks else {}
+                if lab_.get("k") == "case" and lab_.get("const") in (2, 10):
+                    arms_.append((b_.id, s_, "family==%s" % lab_.get("const")))
+    ck.require(arms_, "family tests not found in IP::toString")
+    for bid_, arm_, name_ in arms_:
         loose_ = [x for x in cfg.exits_without(its, summ_n, start_block=arm_) if x.kind != "throw"]
-        ck.ob("C19-R3", "IP::toString/%s-by-inet_ntop" % re.sub(r"\s+", "", (its.blocks[bid_].term or {}).get("cond") or "family"), not loose_,
+        ck.ob("C19-R3", "IP::toString/%s-by-inet_ntop" % name_, not loose_,
               "%s:%s" % (its.file, (its.blocks[bid_].term or {}).get("l")), its,
               "the arm's text comes from inet_ntop" if not loose_ else
               "this arm of IP::toString produces the text without inet_ntop: a second, hand-written rendering of the address")
